@@ -962,7 +962,7 @@ def _c05_accessor(mode, robust):
 
 # ------------------------------------------------------------------ C06
 def c06_relations(kind, y=None, w=None, lam=None, c=0, a=0, b=0, kernel=None, relation=None, data=None, nodata=-3000, p=0.9,
-                  l0=None, lstep=None, grid=3):
+                  l0=None, lstep=None, grid=3, robust=False):
     from hdc.algo.ops.ws2d import ws2d
     rng = np.random.default_rng(37)
     if kind == "l1":
@@ -1009,7 +1009,7 @@ def c06_relations(kind, y=None, w=None, lam=None, c=0, a=0, b=0, kernel=None, re
             continue
         y0 = np.where(vm, s, nodata).astype("float64")
         for g in grids[:2]:
-            kw = dict(lam=lam, p=p, llas=g.astype("float64"), robust=False, lc=0.7)
+            kw = dict(lam=lam, p=p, llas=g.astype("float64"), robust=bool(robust), lc=0.7)
             try:
                 o0, l0_ = _run_smoother(kernel, y0, nodata, **kw)
             except Exception as e:  # noqa
